@@ -135,6 +135,11 @@ def c05_case(draw):
         case['order_given'] = draw(st.booleans())
     if cls == 'Jacobian':
         case['out'] = draw(st.sampled_from(['scalar', 'vec1', 'vec2', 'vec3']))
+    # one case in four reaches the configuration through the public property setters of a live
+    # object that was constructed (and, half of the time, already called) with another method
+    if draw(st.integers(0, 3)) == 0:
+        others = [m for m in methods_of(cls) if m != method and not (m == 'multicomplex' and n > 2)]
+        case['via'] = dict(first_method=draw(st.sampled_from(others)), called_before=draw(st.booleans()))
     return case
 
 
@@ -200,7 +205,10 @@ def build_step(case, nd):
 def case_label(case):
     return '%s(method=%r, order=%s%s, step=%s)(x=%r)' % (
         case['cls'], case['method'], case['order'],
-        ', n=%d' % case['n'] if case['cls'] == 'Derivative' else '', case['step'], case['x'])
+        ', n=%d' % case['n'] if case['cls'] == 'Derivative' else '', case['step'], case['x']) + (
+        ' [built with method=%r, then obj.method = %r%s]' % (case['via']['first_method'], case['method'],
+                                                             ', after one call' if case['via']['called_before'] else '')
+        if case.get('via') else '')
 
 
 class C05(Prop):
@@ -215,7 +223,9 @@ class C05(Prop):
             'arguments, central offsets symmetric, multicomplex and complex (n=1, order<4) keep '
             'Re == x exactly, every offset <= w*h_max, <= 1 (Gradient/Jacobian/Hessdiag) or <= 2 '
             '(Hessian) perturbed coordinates.  Non-trivial = |x_k| >= h_max,k for some k and at '
-            'least 4 recorded calls; distinct by the whole case.')
+            'least 4 recorded calls; distinct by the whole case.  One case in four builds the object '
+            'with another method and reaches the configuration through `obj.method = ...` (half of '
+            'those after a first call with the old method); only the calls made after the switch count.')
     assumptions = ('h_max is taken from the library step generator of the configuration '
                    '(obj.step.step_generator_function(x, method, n, method_order)); its values are '
                    'checked by C10',
@@ -249,7 +259,20 @@ class C05(Prop):
         label = case_label(case)
         with warnings.catch_warnings():
             warnings.simplefilter('ignore')
-            obj = getattr(nd, cls)(rec, **kwds)
+            via = case.get('via')
+            if via:
+                obj = getattr(nd, cls)(rec, **dict(kwds, method=via['first_method']))
+                if via['called_before']:
+                    try:
+                        with np.errstate(all='ignore'):
+                            obj(x_in)
+                    except Exception:
+                        pass
+                obj.method = method
+                del rec.calls[:]
+                ctx.count('via method setter%s' % (' after a call' if via['called_before'] else ''))
+            else:
+                obj = getattr(nd, cls)(rec, **kwds)
             # the steps of the configuration, exactly as Derivative._get_steps asks for them
             x_i = np.asarray(x_in) if cls == 'Derivative' else np.atleast_1d(x_in)
             gen = obj.step.step_generator_function(x_i, obj.method, obj.n, obj.method_order)
